@@ -62,6 +62,18 @@ impl RecomputeHeap {
         }
     }
 
+    /// verification hook: (queue index, node) for every queued node, and the recorded length
+    #[cfg(cormacrelf_incremental_rs_verif)]
+    pub(crate) fn verif_dump(&self) -> (Vec<(usize, NodeRef)>, usize) {
+        let mut out = vec![];
+        for (ix, q) in self.queues.borrow().iter().enumerate() {
+            for n in q.borrow().iter() {
+                out.push((ix, n.clone()));
+            }
+        }
+        (out, self.length.get())
+    }
+
     pub fn len(&self) -> usize {
         self.length.get()
     }
